@@ -264,11 +264,13 @@ def build_test(rs, root, label, obs_mode, N):
             Xall0 = Xall.copy()
     X0 = X.copy()
     fp0 = G.fingerprint(root)
+    from deeprob.spn.structure.cltree import BinaryCLT as _CLT
+    nj = 2 if (rs.rand() < 0.25 and not isinstance(root, _CLT)) else 0         # the law is the same on the layer-parallel path
     if sel is not None:
-        Yall = sample(root, Xall)
+        Yall = sample(root, Xall, n_jobs=nj) if nj else sample(root, Xall)
         Y = Yall[sel] if Yall.shape == Xall.shape else Yall
     else:
-        Y = sample(root, X)
+        Y = sample(root, X, n_jobs=nj) if nj else sample(root, X)
     fp1 = G.fingerprint(root)
     t = dict(label=label, root=root, tab=tab, dom=dom, scope=scope, width=width, obs=obs, miss=miss, codes=codes,
              xrow=xrow, edges=edges, contvars=contvars, N=N, exact=[])
@@ -287,6 +289,15 @@ def build_test(rs, root, label, obs_mode, N):
                 t["exact"].append(f"{lay} batch: missing cells left unfilled or evidence changed")
         except Exception as e:
             t["exact"].append(f"{lay} batch: sample raised {type(e).__name__}: {e}")
+    if not isinstance(root, _CLT):
+        Xi = X[:6].copy()
+        try:
+            Yi = sample(root, Xi, inplace=True)
+            if Yi is not Xi or np.isnan(Xi[:, miss]).any() or not np.array_equal(Xi[:, obs], X[:6][:, obs]):
+                t["exact"].append("inplace=True: the caller's array is not the completed result")
+        except Exception as e:
+            t["exact"].append(f"inplace=True: sample raised {type(e).__name__}: {e}")
+    t["n_jobs"] = nj
     t["mixed_batch"] = sel is not None
     if Y.shape != X.shape:
         t["exact"].append("output shape differs from input shape"); return t
